@@ -1,6 +1,7 @@
 mod common;
 mod driver;
 mod exec;
+mod explore;
 mod gen;
 mod interp;
 mod model;
@@ -83,6 +84,8 @@ fn main() {
         0
     } else if args[0] == "--c12-child" {
         props::c12::child_main(&args[1])
+    } else if args[0] == "--c20-child" {
+        props::c20::co_child_main(&args[1])
     } else if args[0] == "--list" {
         for p in props::all() {
             println!("{}", p.id);
